@@ -14,9 +14,50 @@ RoundTripper, parses the JSON actually sent and verifies it with the standard li
 (ecdsa.Verify on the split R||S, rsa.VerifyPKCS1v15, crypto/hmac), rebuilding the key from the JWK
 on the wire and the thumbprint from scratch; keys and signatures with leading zero octets are
 found by search (search effort is in the evidence).
+
+Spec: spec/JWKEnc.tla — executable RFC 7517/7518/7638 JWK encoder on octet sequences (RSA n/e =
+Base64urlUInt: minimal big-endian; EC x/y = fixed curve width, left-padded; base64url; member order).
+TLC evaluates it on the BOUNDARY key set exported by the harness (RSA public exponents 3, 5, 17,
+257, 65535, 65537, 2^24+1, 2^31-1; moduli of 2048 / 2047 / 2041 / 2040 bits = top octet at every
+kind of boundary; P-256/384/521 points with short X, short Y, both, none - deterministic d*G),
+checks K1 (minimality) and K2 (fixed width), and its text is compared with the jwk header member of
+requests signed by the real client with those keys, the EAB inner payload, JWKThumbprint and the
+key authorizations of http-01, dns-01 and tls-alpn-01.  Vacuity guard: exit 2 unless small
+exponents and short X / short Y / both on every curve were exercised.
 """
 import json
 import vlib
+
+
+def _seq(l):
+    return "<<" + ", ".join(str(int(x)) for x in l) + ">>"
+
+
+def _jwk_bytes(ctx):
+    """JWKEnc.tla evaluated by TLC on the harness' boundary key set; text compared with the real code's output."""
+    km = ctx.go_test("c49", "TestKeyMaterial$", timeout=600)
+    keys = (km.get("extra") or {}).get("keys") or []
+    if not keys:
+        raise vlib.Infra("harness exported no boundary keys")
+    recs = ['  [id |-> "%s", kty |-> "%s", crv |-> "%s", a |-> %s,\n   b |-> %s]' % (k["id"], k["kty"], k["crv"], _seq(k["a"]), _seq(k["b"]))
+            for k in keys]
+    mod = ("------------------------------- MODULE JWKKeys -------------------------------\n"
+           "Keys == {\n" + ",\n".join(recs) + "\n}\n"
+           "=============================================================================\n")
+    r = ctx.tlc_must_hold("JWKEnc_MC", cfg="JWKEnc_MC.cfg", workers=1, timeout=900, files={"JWKKeys.tla": mod})   # K1, K2 + Emit
+    if len(r.traces) != len(keys):
+        raise vlib.Infra("JWKEnc: %d keys, %d encodings" % (len(keys), len(r.traces)))
+    res = ctx.go_test("c49", "TestJWKBytes$", cases=r.traces, timeout=900)
+    ctx.absorb(res)
+    ex = res.get("extra") or {}
+    need = ["c49_boundary_rsa_exponent_below_65536"] + ["c49_boundary_ec_short_%s_%s" % (s, c) for s in ("x", "y", "x_and_y")
+                                                         for c in ("P-256", "P-384", "P-521")]
+    need += ["c49_boundary_rsa_modulus_%d_bits" % b for b in (2048, 2047, 2041, 2040)]
+    missing = [n for n in need if not ex.get(n)]
+    if missing:
+        raise vlib.Infra("vacuous JWK boundary run: not exercised: %s" % ", ".join(missing))
+    ctx.log("JWK encoder: %d boundary keys (%d RSA with e < 65536), TLC text compared on header / EAB / thumbprint / key authorizations"
+            % (len(keys), ex.get("c49_boundary_rsa_exponent_below_65536", 0)))
 
 
 def run(ctx):
@@ -29,12 +70,16 @@ def run(ctx):
         "the harness' verifier uses only the Go standard library (encoding/json, base64, crypto/ecdsa, crypto/rsa, crypto/hmac, crypto/sha256/512); it is the 'independent JOSE implementation' (no Python JOSE library is installed offline)",
         "RSA keys are 2048-bit; ECDSA keys with leading zero octets in a coordinate are found by rejection sampling, signatures by repeating the request",
         "the fake server answers every request with success; nonce handling is C50's subject",
+        "boundary RSA keys are built from fixed primes (d = e^-1 mod lcm(p-1,q-1), rsa.PrivateKey.Validate), boundary EC keys are d*G for the first small d with the wanted shape; SHA-256 of TLC's JWK text is computed with crypto/sha256",
     ]
     if ctx.replay:
         d = (json.load(open(ctx.replay)).get("violation") or {}).get("detail") or {}
         if isinstance(d, dict) and d.get("case"):
             ctx.absorb(ctx.go_test("c49", "TestJWS$", cases=[d["case"]], timeout=600))
             return
+    _jwk_bytes(ctx)
+    if ctx.violations:
+        return
     cfg = ctx.pick("JWS_Quick.cfg", "JWS_Full.cfg")
     g = ctx.tlc_must_hold("JWS_MC", cfg=cfg, workers=1, timeout=900)       # J1-J6 + Emit in one run
     if not g.traces:
